@@ -276,9 +276,37 @@ def r6_memo(chk: Check) -> None:
     # the fallback decision is taken per location
     gp = P.func(f"{HYP}:generate_parameter")
     t = unparse(gp.node, 100000)
-    chk.expect("can_negate_headers(operation, location)" in t and "can_negate_path_parameters(operation)" in t, "C02.R6", gp, "fallback decided by can_negate_*(operation, location)", "shape not recognised", gp.loc())
-    ch = P.func(f"{HYP}:can_negate_headers")
-    chk.expect("LOCATION_TO_CONTAINER[location]" in unparse(ch.node, 3000), "C02.R6", ch, "can_negate_headers looks at the parameters of ITS location", "shape not recognised", ch.loc())
+    # a verdict taken under a guard that covers SEVERAL locations (is_header_location: header and cookie) must be
+    # computed for the location at hand: the can_negate_* call receives `location`, and the callee uses it
+    loc_param = params_of(gp.node)[0]
+    multi = [c for c in body_calls(gp) if last_attr(c) == "is_header_location"]
+    verdicts = [c for c in body_calls(gp) if (last_attr(c) or "").startswith("can_negate_")]
+    construct = "fallback decided by can_negate_*(operation, <this location>)"
+    if not multi or not verdicts:
+        chk.undecided("C02.R6", gp, construct, "shape not recognised", gp.loc())
+    else:
+        from ..astutil import conjuncts as _cj
+
+        for m_ in multi:
+            # the conjunction that contains the multi-location guard
+            conj = next((b for b in ast.walk(gp.node) if isinstance(b, ast.BoolOp) and isinstance(b.op, ast.And) and any(strip_not(v)[0] is m_ for v in b.values)), None)
+            partner = [c for c in (ast.walk(conj) if conj is not None else []) if isinstance(c, ast.Call) and (last_attr(c) or "").startswith("can_negate_")]
+            if not partner:
+                chk.undecided("C02.R6", gp, construct, "no can_negate_* verdict next to is_header_location(...)", gp.loc(m_))
+                continue
+            for c in partner:
+                passes = any(is_var(a, loc_param) for a in c.args) or any(is_var(k.value, loc_param) for k in c.keywords)
+                r = P.resolve_call(gp, c)
+                callee_uses = None
+                if r and r[0] == "func":
+                    cps = params_of(r[1].node)  # type: ignore[union-attr]
+                    callee_uses = any("location" in p_ for p_ in cps) and any(isinstance(x, ast.Name) and "location" in x.id for x in walk_body(r[1].node))  # type: ignore[union-attr]
+                if passes and callee_uses is not False:
+                    chk.ok("C02.R6", gp, construct, unparse(c, 60), gp.loc(c))
+                else:
+                    chk.violation("C02.R6", gp, construct,
+                                  f"`{unparse(c, 60)}` is evaluated under `is_header_location({loc_param})`, which is true for headers AND cookies, but does not depend on the location: whether COOKIES can be negated is decided from the header parameters - an operation with negatable cookies gets positive cookies (and may be skipped as 'impossible to negate'), one with non-negatable cookies gets no fallback",
+                                  gp.loc(c))
 
 
 def rules(tier: str) -> list:  # type: ignore[type-arg]
